@@ -490,6 +490,19 @@ func (s torn) Run(c *Ctx, i int) {
 	} else {
 		edits = binEdits(doc.Out, r.Fork())
 	}
+	if !isText {
+		// correctly framed values that are malformed in themselves, appended to the document (the byte-level catalogue
+		// cannot make them: they need more bytes than the field they would replace)
+		ar := r.Fork()
+		for j := 0; j < 4; j++ {
+			b := append(append([]byte{}, data...), fractionNotBelowOne(ar)...)
+			if e := classify(b); e != nil && !e.Unsure {
+				s.runBoth(c, b, "timestamp-fraction-not-below-one(framed)", e.Rule)
+			} else {
+				c.Count("catalogue.framed-atom-not-judged(discarded)", 1)
+			}
+		}
+	}
 	if len(edits) > 400 && len(data) > 1500 {
 		// a long document with thousands of sites: a seeded sample of 400 edits (the cost of one edit is a traversal of
 		// the whole document, twice)
